@@ -91,12 +91,17 @@ Definition check_surface_ok (V : list pt) (F : list (list Z)) (q : bool) (ops : 
       && Bool.eqb (arg_conn_ok q (input_surface V F) a) (oaconn o)
   end.
 
-Inductive sout := SErr (e : err) | SOk (o : sobs).
+(* SErrThen e o: the last operation of the block raised e, the caller caught it; o is what the block and the argument
+   hold afterwards: __exit__ ran, so it is the finished result of the operations before the failing one *)
+Inductive sout := SErr (e : err) | SOk (o : sobs) | SErrThen (e : err) (o : sobs).
+Definition raises (V : list pt) (F : list (list Z)) (ops : list sop) (e : err) : bool :=
+  match run_surface QcO (input_surface V F) ops with Err e' => err_eqb e e' | Ok _ => false end.
 Definition check_surface (c : list pt * list (list Z) * bool * list sop * sout) : bool :=
   let '(V, F, q, ops, out) := c in
   match out with
   | SOk o => check_surface_ok V F q ops o
-  | SErr e => match run_surface QcO (input_surface V F) ops with Err e' => err_eqb e e' | Ok _ => false end
+  | SErr e => raises V F ops e
+  | SErrThen e o => raises V F ops e && check_surface_ok V F q (removelast ops) o
   end.
 
 (* ------------------------------------------------------------------ split_double_boundary_edges_triangles *)
@@ -110,25 +115,39 @@ Definition check_split_double (c : list pt * list (list Z) * option (list pt * l
   end.
 
 (* ------------------------------------------------------------------ polyline *)
-Definition check_polyline (c : list pt * list edge * list Z * option (list pt * list edge)) : bool :=
-  let '(V, E, es, out) := c in
+(* raised = the last split raised (caught by the caller); the observed polyline is then the one after the earlier splits *)
+Definition check_polyline (c : list pt * list edge * list Z * bool * option (list pt * list edge)) : bool :=
+  let '(V, E, es, raised, out) := c in
   let r0 := pr (prepare (mkraw V E [] [])) in
-  match foldM (split_edge QcO) es r0, out with
-  | Ok r, Some (V', E') => pts_eqb (rv r) V' && edges_eqb (re r) E'
-  | Err _, None => true
-  | _, _ => false
-  end.
+  let same r o := match o with Some (V', E') => pts_eqb (rv r) V' && edges_eqb (re r) E' | None => true end in
+  if raised then
+    match foldM (split_edge QcO) es r0, foldM (split_edge QcO) (removelast es) r0 with
+    | Err _, Ok r => same r out
+    | _, _ => false
+    end
+  else
+    match foldM (split_edge QcO) es r0, out with
+    | Ok r, Some _ => same r out
+    | _, _ => false
+    end.
 
 (* ------------------------------------------------------------------ volume editing block *)
 Record vobs := mkvobs { vV : list pt; vE : list edge; vF : list (list Z); vC : list (list Z);
                         vCorn : list (Z * Z); vCCorn : list (Z * Z) }.
 Definition input_volume (V : list pt) (C : list (list Z)) : raw pt := pr (prepare (mkraw V [] [] C)).
-Definition check_volume (c : list pt * list (list Z) * list vop * option vobs) : bool :=
-  let '(V, C, ops, out) := c in
-  match run_volume QcO (input_volume V C) ops, out with
-  | Ok p, Some o =>
-      pts_eqb (rv (pr p)) (vV o) && edges_eqb (re (pr p)) (vE o) && faces_eqb (rf (pr p)) (vF o)
-      && faces_eqb (rc (pr p)) (vC o) && corn_eqb (pcorn p) (vCorn o) && corn_eqb (pccorn p) (vCCorn o)
-  | Err _, None => true
-  | _, _ => false
-  end.
+Definition vobs_eqb (p : @prepared pt) (o : vobs) : bool :=
+  pts_eqb (rv (pr p)) (vV o) && edges_eqb (re (pr p)) (vE o) && faces_eqb (rf (pr p)) (vF o)
+  && faces_eqb (rc (pr p)) (vC o) && corn_eqb (pcorn p) (vCorn o) && corn_eqb (pccorn p) (vCCorn o).
+(* raised = the last operation raised (caught by the caller): __exit__ still finished the mesh of the earlier operations *)
+Definition check_volume (c : list pt * list (list Z) * list vop * bool * option vobs) : bool :=
+  let '(V, C, ops, raised, out) := c in
+  if raised then
+    match run_volume QcO (input_volume V C) ops, run_volume QcO (input_volume V C) (removelast ops) with
+    | Err _, Ok p => match out with Some o => vobs_eqb p o | None => true end
+    | _, _ => false
+    end
+  else
+    match run_volume QcO (input_volume V C) ops, out with
+    | Ok p, Some o => vobs_eqb p o
+    | _, _ => false
+    end.
